@@ -229,3 +229,31 @@ ModelsMixin.CLASS_MODELS[_ip.IPv6Address] = _m_ipv6
 ModelsMixin.FUNCTION_MODELS["ipaddress.ip_address"] = _m_ip_address
 ModelsMixin.FUNCTION_MODELS["re.fullmatch"] = _m_re_fullmatch
 ModelsMixin.FUNCTION_MODELS["re.findall"] = _m_re_findall
+
+
+EPOCH_1900_US = dt_to_us(_dt.datetime(1900, 1, 1))
+
+
+def _m_utcnow(ctx, args, kwargs):
+    """datetime.utcnow()/now(): ANY instant (havoc'd per call); when the proof names a clock floor
+    (ghost 'clock_floor_s1900': seconds since 1900 the clock has already shown) the named assumption
+    A-CLOCK-MONO 'the wall clock does not run backwards' is applied."""
+    ctx.clock_reads = getattr(ctx, "clock_reads", 0) + 1
+    d = make_datetime(ctx, ctx.fresh_name("clock"))
+    ctx.eng.externals_used.add("datetime.utcnow()/now(): any instant on every call (wall clock not modelled)")
+    floor = ctx.ghost.get("clock_floor_s1900")
+    if floor is not None:
+        ctx.eng.externals_used.add("A-CLOCK-MONO: the wall clock never shows a second earlier than one it showed before")
+        ctx.assume_raw(d.attrs["us"] >= int_term(floor) * 1000000 + EPOCH_1900_US)
+    return d
+
+
+ModelsMixin.NATIVE_MODEL_TABLE["datetime.utcnow"] = _m_utcnow
+ModelsMixin.NATIVE_MODEL_TABLE["datetime.now"] = _m_utcnow
+
+
+class SSplit(object):
+    """result of str.split(sep) on symbolic text: only [0] and truthiness are modelled"""
+
+    def __init__(self, s, sep):
+        self.s, self.sep = s, sep
